@@ -20,6 +20,7 @@ STD_ENUMS = {
     'Entry': [('Occupied', 0), ('Vacant', 1)],
     'DiffOp': [('Equal', 0), ('Delete', 1), ('Insert', 2), ('Replace', 3)],
     'Bound': [('Included', 0), ('Excluded', 1), ('Unbounded', 2)],
+    'Poll': [('Ready', 0), ('Pending', 1)],
 }
 
 INT_BITS = {'u8': 8, 'u16': 16, 'u32': 32, 'u64': 64, 'u128': 128, 'usize': 64,
@@ -201,6 +202,7 @@ class Program:
             for name, lst in mp.parse_mir_file(t).items():
                 self.fns.setdefault(name, []).extend(lst)
         self.by_span_closure = {}   # '{closure@src/x.rs:..}' -> MirFn
+        self.by_coroutine = {}      # 'src/x.rs:L:C: L:C' (async block span) -> poll MirFn
         self.impl_index = {}        # (self_ty, method) -> [(trait, derive, MirFn)]
         self.free_index = {}        # last segment -> [MirFn]
         self.enum_index = dict(STD_ENUMS)
@@ -215,6 +217,9 @@ class Program:
                         m = re.search(r'\{closure@[^}]*\}', f.arg_types[0])
                         if m:
                             self.by_span_closure[m.group(0)] = f
+                        m = re.match(r'^(?:std::pin::)?Pin<&mut \{async (?:block|closure)@([^}]*)\}>$', f.arg_types[0].strip())
+                        if m:
+                            self.by_coroutine[m.group(1)] = f
                     continue
                 m = re.search(r'<impl at (src/[^:]+:\d+:\d+): \d+:\d+>::([A-Za-z_][A-Za-z0-9_]*)$', name)
                 if m:
@@ -470,10 +475,18 @@ class Interp:
 
     def place_ref(self, fr, place):
         ref = Ref(fr.cells[place.local], ())
+        variant = None
         for p in place.proj:
             k = p[0]
             if k == 'field':
-                ref = Ref(ref.cell, ref.path + (p[1],))
+                if variant is not None:
+                    # a local of a coroutine saved across a suspension point
+                    ref = Ref(ref.cell, ref.path + (('sv', variant, p[1]),))
+                    variant = None
+                else:
+                    ref = Ref(ref.cell, ref.path + (p[1],))
+            elif k == 'downcast' and isinstance(p[1], int):
+                variant = p[1]          # `variant#N`: only coroutine states are printed that way
             elif k == 'deref':
                 v = self.load(ref)
                 if isinstance(v, Ref):
@@ -712,6 +725,8 @@ class Interp:
             v = self.read_place(fr, rv.a)
             if isinstance(v, Enum):
                 return self.prog.discr_of(v)
+            if isinstance(v, Coro):
+                return v.state
             raise EngineError('discriminant of non-enum %r in %s' % (v, fr.fn.name))
         if k == 'len':
             v = self.read_place(fr, rv.a)
@@ -727,6 +742,8 @@ class Interp:
             v = self.operand(fr, rv.a)
             m = re.match(r'^(?:const )?(\d+)', rv.b)
             return VecVal([v] * int(m.group(1)))
+        if k == 'closure' and rv.a.startswith('{coroutine@'):
+            return self.make_coroutine(fr, rv)
         if k == 'closure':
             caps = [self.operand(fr, o) for o in rv.b]
             need = self.closure_ncaptures(rv.a)
@@ -736,6 +753,38 @@ class Interp:
         if k == 'aggregate':
             return self.aggregate(fr, rv, dest_place)
         raise EngineError('rvalue kind %r' % k)
+
+    def make_coroutine(self, fr, rv):
+        span = re.sub(r'\s*\(#\d+\)\}$', '', rv.a[len('{coroutine@'):]).rstrip('}')
+        f = self.prog.by_coroutine.get(span)
+        if f is None:
+            # `async fn` bodies carry no span in their type: the poll function is a `{closure#N}` of
+            # the function that builds the coroutine
+            cands = []
+            for name, lst in self.prog.fns.items():
+                if name.startswith(fr.fn.name + '::{closure#') and name.count('{closure#') == fr.fn.name.count('{closure#') + 1:
+                    for g in lst:
+                        if g.arg_types and re.match(r'^(?:std::pin::)?Pin<&mut \{async ', g.arg_types[0].strip()) \
+                                and g.arg_types[0].strip() not in ['Pin<&mut {async block@%s}>' % k for k in self.prog.by_coroutine]:
+                            cands.append(g)
+            if len(cands) != 1:
+                raise EngineError('cannot find the poll function of coroutine %s (built in %s)' % (span, fr.fn.name))
+            f = cands[0]
+        caps = [self.operand(fr, o) for o in rv.b]
+        f.ensure_parsed()
+        # number of upvars the poll function reads: ((*_N).K: T) where _N = copy (_1.0: &mut {async ..})
+        m = re.search(r'(_\d+) = (?:copy|move) \(_1\.0: &mut \{async', f.text)
+        if m:
+            idx = [int(x) for x in re.findall(r'\(\(\*%s\)\.(\d+): ' % re.escape(m.group(1)), f.text)]
+            need = (max(idx) + 1) if idx else 0
+            if len(caps) < need:
+                caps = caps + self.missing_captures(fr, rv, need - len(caps))
+        return Coro(span, f, caps)
+
+    def poll_coroutine(self, ref, cx):
+        """One resumption of the coroutine held in the cell `ref` points to."""
+        co = self.load(ref)
+        return self.call_fn(co.fn, [ref, cx])
 
     def closure_ncaptures(self, span):
         f = self.prog.by_span_closure.get(span)
@@ -885,7 +934,11 @@ class Interp:
                         else:
                             self.store(self.place_ref(fr, s.place), val)
                     elif s.kind == 'setdisc':
-                        raise EngineError('SetDiscriminant (coroutine?) in %s' % f.name)
+                        r = self.place_ref(fr, s.place)
+                        cur = self.load(r)
+                        if not isinstance(cur, Coro):
+                            raise EngineError('SetDiscriminant on %r in %s' % (cur, f.name))
+                        self.store(r, Coro(cur.span, cur.fn, cur.caps, s.rv, cur.saved))
                 t = b.term
                 k = t.kind
                 if k == 'goto':
@@ -1056,6 +1109,10 @@ def child(v, idx):
         return v.entries[idx]
     if isinstance(v, Closure):
         return v.captures[idx]
+    if isinstance(v, Coro):
+        if isinstance(idx, tuple):
+            return v.saved.get((idx[1], idx[2]))
+        return v.caps[idx]
     if isinstance(v, Ref) and idx == 0:
         # Box<T> -> Unique<T> -> NonNull<T> -> *const T : single-field pointer wrappers
         return v
@@ -1087,6 +1144,14 @@ def update(v, path, newv):
         f = list(v.captures)
         f[idx] = update(f[idx], rest, newv)
         return Closure(v.span, f)
+    if isinstance(v, Coro):
+        if isinstance(idx, tuple):
+            sv = dict(v.saved)
+            sv[(idx[1], idx[2])] = update(sv.get((idx[1], idx[2])), rest, newv)
+            return Coro(v.span, v.fn, v.caps, v.state, sv)
+        c = list(v.caps)
+        c[idx] = update(c[idx], rest, newv)
+        return Coro(v.span, v.fn, c, v.state, v.saved)
     if v is None:
         # field-wise initialisation of an uninitialised aggregate
         f = [None] * (idx + 1)
